@@ -593,6 +593,18 @@ class Machine:
             return wrap(r, m.group(1))
         if re.search(r"impl i\d+>::(unsigned_abs|abs)$", c):
             return abs(a[0])
+        m = re.search(r"impl (u\d+|i\d+|usize|isize)>::(div_euclid|rem_euclid|signum|min|max)$", c)
+        if m:
+            op = m.group(2)
+            if op in ("div_euclid", "rem_euclid"):
+                if a[1] == 0:
+                    raise Panic("attempt to divide by zero")
+                r = a[0] % abs(a[1])               # 0 <= r < |b|
+                q = (a[0] - r) // a[1]
+                return q if op == "div_euclid" else r
+            if op == "signum":
+                return (a[0] > 0) - (a[0] < 0)
+            return min(a[0], a[1]) if op == "min" else max(a[0], a[1])
         if re.search(r"Option::<.*>::is_none$", c):
             return deref(a[0]).variant == "None"
         if re.search(r"Option::<.*>::is_some$", c):
